@@ -698,6 +698,9 @@ class Engine(Interp):
             self.used_contracts.append(c.qual)
         for p, v in c.fix.items():
             if p in vals and vals[p] != v:
+                a = vals[p]
+                if isinstance(v, str) and isinstance(a, Sym) and z3.is_int_value(a.t) and a.t.as_long() == STRINGS.intern(v):
+                    continue        # the same interned string constant
                 self.oblige(f"pre:{c.qual}:fixed-param:{p}", 'pre', False, node)
         old = self.snapshot(vals)
         caller = self.fn_stack[-1].qual if self.fn_stack else '?'
